@@ -187,14 +187,13 @@ func alter(l *raft.Log, f, m string, rng *rand.Rand) *raft.Log {
 			} else {
 				c.Index = 1
 			}
-		} else {
-			switch rng.Intn(3) {
-			case 0:
-				c.Index++
-			case 1:
+		} else if m == "alt2" {
+			c.Index++
+		} else { // alt3 (harness only): wild values
+			if rng.Intn(2) == 0 {
 				c.Index ^= 1 << uint(1+rng.Intn(40))
-			default:
-				c.Index += 2
+			} else {
+				c.Index += 2 + uint64(rng.Intn(5))
 			}
 		}
 	case "t":
